@@ -17,7 +17,11 @@ RULE = ('stub package of 6 user-defined chemicals with dyadic MW, Hf, Hvap(298.1
         'adiabatic_reaction(stream, Q), plus empty streams, non-stream arguments and infeasible conversions. Phase-tagged '
         'reactions are also defined from (phase x chemical) arrays and as sums r1 + r2, so that a chemical takes part in two '
         'phases; 30 % of the cases first reassign conversions through the set, its items, slices and the system while the '
-        'observed handles were all obtained before. Compared: what every handle reads as X, dH of '
+        'observed handles were all obtained before; others first run copy / copy-of-copy / basis-setter / backwards steps on copies '
+        'of the members and read dH of members and copies. Single-phase streams live on the reaction package or on a permuted '
+        'one, may have proxies, and a pre-history of H / C reads and T / flow / phase changes (and changes back) runs through the '
+        'handles before the operation is applied through one of them; the H/T solver stub may raise in chosen phases. '
+        'Compared: every H read, what every handle reads as X, dH of '
         'each member (value or exception class), Hnet before, exception class, flows, T and Hnet after (1e-9 relative). '
         'non-trivial = a dH is non-zero or the call changed the stream or raised')
 ASSUMPTIONS = ['H/T inversion (mixture.solve_T_at_HP, xsolve_T_at_HP; flexsolve inside) is an oracle with the contract '
@@ -42,6 +46,7 @@ ERR = {'InfeasibleRegion': 'EInfeasible', 'ValueError': 'EValue', 'TypeError': '
        'RuntimeError': 'ERuntime', 'UndefinedChemicalAlias': 'EKey', 'UndefinedChemical': 'EKey',
        'UndefinedPhase': 'EUndefPhase', 'ZeroDivisionError': 'EZeroDiv', 'FloatingPointError': 'EZeroDiv', 'KeyError': 'EKey'}
 TREF = 298.15
+ORDER_B = [3, 1, 5, 0, 4, 2]       # package B: the same chemicals in another order
 
 _env = {}
 def env():
@@ -50,6 +55,7 @@ def env():
         cs = [tmo.Chemical(i, search_db=False, MW=float(MW[k]), Hf=float(HF[k]), Cn=float(CN[k]), Hvap=float(HVAP[k]),
                            Hfus=float(HFUS[k]), phase=PREF[k], default=True) for k, i in enumerate(IDS)]
         tmo.settings.set_thermo(tmo.Chemicals(cs))
+        _env['thermoB'] = tmo.Thermo(tmo.Chemicals([cs[i] for i in ORDER_B]))
         ch = tmo.settings.chemicals
         assert list(ch.MW) == [float(x) for x in MW] and list(ch.Hf) == [float(x) for x in HF]
         assert [c.phase_ref for c in ch] == PREF
@@ -193,9 +199,49 @@ def gen_case(rng):
         case['sphase'] = rng.choice(['l', 'l', 'g', 's'])
         case['solve_fail'] = ([] if rng.random() < 0.75 or case['op'] != 'adiabatic' else
                               rng.choice([['l'], ['g'], ['g', 'l'], ['s'], ['l', 's'], ['g', 'l', 's']]))
+        case['pkg'] = 'B' if rng.random() < 0.3 else 'A'       # the stream may live on another package than the reaction
+        if case['op'] != 'dH' and not case['not_stream'] and rng.random() < 0.35:
+            case['pre'], case['via'] = gen_pre(rng, case)
     if not any('plus' in r for r in case['rxns']) and rng.random() < 0.3:
         case['xhist'] = gen_xhist(rng, case)
+    elif 'L' not in phases and rng.random() < 0.45:
+        case['history'] = gen_rhist(rng, case)
     return case
+
+def gen_rhist(rng, case):
+    """operations on COPIES of the member reactions (copy, copy of a copy, basis setter on either, backwards) before the
+    heats of reaction of the members and of every copy are read"""
+    ids_in = sorted({t[1] for s_ in case['rxns'] for t in s_['terms']})
+    ops = [['itemcopy', rng.randrange(16), rng.choice([None, None, 'mol', 'wt'])]]
+    for _ in range(rng.randint(1, 5)):
+        o = rng.choice(['itemcopy', 'copy', 'copy', 'setbasis', 'setbasis', 'setbasis', 'itembackwards', 'backwards'])
+        i = rng.randrange(16)
+        if o == 'itemcopy': ops.append([o, i, rng.choice([None, None, 'mol', 'wt'])])
+        elif o == 'copy': ops.append([o, i, rng.choice([None, None, 'mol', 'wt'])])
+        elif o == 'setbasis': ops.append([o, i, rng.choice(['mol', 'wt', 'wt'])])
+        else: ops.append([o, i, rng.choice([None] + ids_in), rng.choice([None, None, 0.5, 0.25])])
+    return ops
+
+def gen_pre(rng, case):
+    """what happens to the stream, through it and through proxies of it, before the reaction is applied through one
+    of the handles: property reads (memoised), changes of T / flows / phase and changes back"""
+    Ta = case['T']; Tb = rng.choice([t for t in TS if t != Ta])
+    alt = [float(rng.choice(SMALL + BIG)) for _ in range(N)]
+    if rng.random() < 0.5:
+        # state A read through two handles, state B read through one, back to exactly A, use the other
+        change, back = rng.choice([(['setT', 0, Tb], ['setT', 1, Ta]), (['setflows', 1, alt], ['setflows', 0, list(case['flows'])]),
+                                   (['setphase', 0, 'g' if case['sphase'] != 'g' else 'l'], ['setphase', 0, case['sphase']])])
+        ops = [['proxy', 0], ['readH', 0], ['readH', 1], change, [rng.choice(['readH', 'readH', 'readC']), rng.randrange(2)], back]
+        return ops, rng.randrange(2)
+    ops = [['proxy', 0]] if rng.random() < 0.7 else []
+    for _ in range(rng.randint(1, 6)):
+        o = rng.choice(['proxy', 'readH', 'readH', 'readC', 'setT', 'setT', 'setflows', 'setphase'])
+        h = rng.randrange(8)
+        if o == 'setT': ops.append([o, h, rng.choice([Ta, Ta, Tb])])
+        elif o == 'setflows': ops.append([o, h, rng.choice([alt, list(case['flows'])])])
+        elif o == 'setphase': ops.append([o, h, rng.choice(['l', 'g', 's', case['sphase']])])
+        else: ops.append([o, h])
+    return ops, rng.randrange(8)
 
 def _single(terms, reactant, X, basis='mol', rebase=None, phases=(), T=TREF, flows=None, op='isothermal', Q=0.0, kind='single', n=1):
     rx = {'terms': terms, 'form': 'str', 'reactant': reactant, 'X': X, 'basis': basis, 'rebase': rebase}
@@ -256,6 +302,61 @@ def build_rxn(case, spec):
         r = r.copy(spec['rebase'])
     return r
 
+def flat_ridx(r):
+    if r._phases:
+        p, j = r._reactant_index
+        return int(p) * N + int(j)
+    return int(r._reactant_index)
+
+def resolve_reactant(r, ident):
+    """flat index Reaction.backwards(reactant=ident) selects"""
+    j = IDS.index(ident)
+    if r._phases:
+        col = np.asarray(r._stoichiometry.to_array(), float)[:, j]
+        p = len(col) - 1
+        for k, x in enumerate(col):
+            if x:
+                p = k
+                break
+        return p * N + j
+    return j
+
+def apply_rhist(case, obj, members, gobjs, extra):
+    """every step takes its handle afresh from the object; only copies are changed"""
+    tmo = env()['tmo']
+    groups = groups_of(case)
+    def handle(m):
+        for (gk, idx), g in zip(groups, gobjs):
+            if m in idx: return g if gk == 'single' else g[idx.index(m)]
+    n = len(case['rxns'])
+    derived, lineage, ops, oks = [], [], [], []
+    for op in case['history']:
+        name = op[0]
+        if name in ('copy', 'setbasis', 'backwards') and not derived:
+            op = ['itemcopy', op[1], None]; name = 'itemcopy'
+        try:
+            if name == 'itemcopy':
+                m = op[1] % n; ops.append(['itemcopy', m, op[2]])
+                derived.append(handle(m).copy(op[2])); lineage.append(m)
+            elif name == 'copy':
+                j = op[1] % len(derived); ops.append(['copy', j, op[2]])
+                derived.append(derived[j].copy(op[2])); lineage.append(lineage[j])
+            elif name == 'setbasis':
+                j = op[1] % len(derived); ops.append(['setbasis', j, op[2]])
+                derived[j].basis = op[2]
+            elif name == 'itembackwards':
+                m = op[1] % n; h = handle(m)
+                ops.append(['itembackwards', m, None if op[2] is None else resolve_reactant(h, op[2]), op[3]])
+                derived.append(h.backwards(reactant=op[2], X=op[3])); lineage.append(None)
+            elif name == 'backwards':
+                j = op[1] % len(derived)
+                ops.append(['backwards', j, None if op[2] is None else resolve_reactant(derived[j], op[2]), op[3]])
+                derived.append(derived[j].backwards(reactant=op[2], X=op[3])); lineage.append(None)
+            oks.append(True)
+        except Exception:
+            oks.append(False)
+    extra.update(hist_ops=ops, hist_oks=oks, derived=derived, lineage=lineage[:len(derived)])
+
 def build_obj(case, extra=None):
     """returns (callable object, member handles obtained BEFORE any later assignment).  extra (dict) receives the
     per-group objects and, after the conversion history has run, what the different handles read."""
@@ -277,6 +378,8 @@ def build_obj(case, extra=None):
                 o = tmo.ParallelReaction(sub) if pk == 'parallel' else tmo.SeriesReaction(sub)
                 parts.append(o); members += [o[i] for i in range(len(sub))]
         obj, gobjs = tmo.ReactionSystem(*parts), parts
+    if case.get('history'):
+        apply_rhist(case, obj, members, gobjs, extra if extra is not None else {})
     if case.get('xhist'):
         groups = groups_of(case)
         # every handle is taken before the first assignment: items (above), slices and items of slices
@@ -307,6 +410,23 @@ def build_obj(case, extra=None):
             extra['seen'] = seen
     return obj, members
 
+def to_pkg(case, v):
+    """a per-chemical vector given in the reaction's order, in the order of the stream's package"""
+    return [v[i] for i in ORDER_B] if case.get('pkg') == 'B' else list(v)
+
+def from_pkg(case, v):
+    if case.get('pkg') != 'B': return list(v)
+    out = [0.0] * N
+    for j, i in enumerate(ORDER_B): out[i] = v[j]
+    return out
+
+def fresh_stream(case, flows_pkg, T, phase):
+    tmo = env()['tmo']
+    kw = dict(thermo=env()['thermoB']) if case.get('pkg') == 'B' else {}
+    s = tmo.Stream(None, T=T, phase=phase, **kw)
+    s.imol.data[:] = np.array(flows_pkg, float)
+    return s
+
 def make_stream(case):
     tmo = env()['tmo']
     ph = case['phases']
@@ -314,10 +434,48 @@ def make_stream(case):
     if ph:
         s = tmo.MultiStream(None, phases=ph, T=case['T'])
         s.imol.data[:] = flows.reshape(len(ph), N)
+        return s
+    return fresh_stream(case, to_pkg(case, case['flows']), case['T'], case.get('sphase', 'l'))
+
+def state_of(s):
+    return {'mol': [float(x) for x in np.asarray(s.imol.data.to_array(), float).reshape(-1)], 'T': float(s.T), 'phase': s.phase}
+
+def run_stream(case, obj):
+    """single-phase Stream: the pre-history through the handles, then the operation through one of them.
+    Returns the reads, the state before the operation, the exception, the state after, and Hnet of both states
+    evaluated on FRESH streams (no memo involved)."""
+    s = make_stream(case)
+    handles = [s]; reads = []; pre = []; true_reads = []
+    for op in case.get('pre', []):
+        h = handles[op[1] % len(handles)]
+        name = op[0]
+        if name == 'proxy': handles.append(h.proxy()); pre.append(['proxy'])
+        elif name == 'readH':
+            reads.append(float(h.H)); pre.append(['readH'])
+            st_ = state_of(s); true_reads.append(float(fresh_stream(case, st_['mol'], st_['T'], st_['phase']).H))
+        elif name == 'readC': h.C; pre.append(['readC'])
+        elif name == 'setT': h.T = op[2]; pre.append(['setT', op[2]])
+        elif name == 'setflows': h.imol.data[:] = np.array(to_pkg(case, op[2]), float); pre.append(['setflows', to_pkg(case, op[2])])
+        elif name == 'setphase': h.phase = op[2]; pre.append(['setphase', op[2]])
+    before = state_of(s)
+    r = {'reads': reads, 'true_reads': true_reads, 'pre': pre, 'before': before, 'err': None,
+         'Hnet0': float(fresh_stream(case, before['mol'], before['T'], before['phase']).Hnet)}
+    target = handles[case.get('via', 0) % len(handles)]
+    try:
+        with failing_solver(s, case.get('solve_fail', [])):
+            if case['op'] == 'adiabatic':
+                obj.adiabatic_reaction(np.array(case['flows']) if case['not_stream'] else target, case['Q'])
+            else:
+                obj(target)
+    except Exception as ex:
+        r['err'] = errname(ex); r['err_cls'] = type(ex).__name__
+    if r['err'] and s.imol.chemicals is not s.chemicals:
+        # an exception on another package leaves the flows indexed by the reaction's chemicals: only the class is compared
+        r['after'] = {'mol': [], 'T': float(s.T), 'phase': s.phase}; r['Hnet'] = 0.0
     else:
-        s = tmo.Stream(None, T=case['T'], phase=case.get('sphase', 'l'))
-        s.imol.data[:] = flows
-    return s
+        r['after'] = state_of(s)
+        r['Hnet'] = float(fresh_stream(case, r['after']['mol'], r['after']['T'], r['after']['phase']).Hnet)
+    return r
 
 def canon_dH(x):
     a = np.asarray(x, float).reshape(-1)
@@ -335,32 +493,42 @@ def run_impl(case):
         except Exception as ex:
             dhs.append([errname(ex), []])
     out['dH'] = dhs
+    if case.get('history'):
+        dd = []
+        for d in extra.get('derived', []):
+            try: dd.append([None, canon_dH(d.dH)])
+            except Exception as ex: dd.append([errname(ex), []])
+        out.update(dH_derived=dd, hist_ops=extra.get('hist_ops', []), hist_oks=extra.get('hist_oks', []))
     if 'seen' in extra:
         out['seen'] = {k: [fr_json(frac(x)) for x in v] for k, v in extra['seen'].items()}
     if case['op'] == 'dH':
+        return out
+    if flip_case(case):
+        r = run_stream(case, obj)
+        out.update(err=r['err'], err_cls=r.get('err_cls'), reads=[fr_json(frac(x)) for x in r['reads']], pre=r['pre'],
+                   Hnet0=fr_json(frac(r['Hnet0'])), mol=[fr_json(frac(x)) for x in r['after']['mol']],
+                   T=fr_json(frac(r['after']['T'])), phase=r['after']['phase'], Hnet=fr_json(frac(r['Hnet'])))
         return out
     s = make_stream(case)
     out['Hnet0'] = fr_json(frac(s.Hnet))
     out['err'] = None
     try:
-        with failing_solver(s, case.get('solve_fail', [])):
-            if case['op'] == 'adiabatic':
-                obj.adiabatic_reaction(np.array(case['flows']) if case['not_stream'] else s, case['Q'])
-            else:
-                obj(s)
+        if case['op'] == 'adiabatic':
+            obj.adiabatic_reaction(np.array(case['flows']) if case['not_stream'] else s, case['Q'])
+        else:
+            obj(s)
     except Exception as ex:
         out['err'] = errname(ex); out['err_cls'] = type(ex).__name__
-    if out['err'] is None or flip_case(case):
+    if out['err'] is None:
         out['mol'] = [fr_json(frac(x)) for x in np.asarray(s.imol.data.to_array(), float).reshape(-1)]
         out['T'] = fr_json(frac(s.T))
         out['Hnet'] = fr_json(frac(s.Hnet))
-        if not case['phases']: out['phase'] = s.phase
     return out
 
 def flip_case(case):
-    """adiabatic reaction of a single-phase Stream: modelled with the H setter's phase fallback, state compared even
-    after an exception"""
-    return case['op'] == 'adiabatic' and not case['phases']
+    """a single-phase Stream is reacted: modelled with the H memo shared by the handles, the H setter's phase fallback and,
+    for another package, the index remapping; the state is compared even after an exception"""
+    return case['op'] != 'dH' and not case['phases']
 
 import contextlib
 @contextlib.contextmanager
@@ -425,6 +593,20 @@ def coq_case(case, out):
             return 'false'                      # dH is not a scalar: nothing the model could equal
         exp.append(f'({cerr(e)}, {q(F(v[0])) if e is None else "0"})')
     t = f'(dHs_eqb {CHEM} {cobj_after(case)} members_of {clist(exp)})'
+    if case.get('history'):
+        dexp = []
+        for e, v in out['dH_derived']:
+            if e is None and len(v) != 1: return 'false'
+            dexp.append(f'({cerr(e)}, {q(F(v[0])) if e is None else "0"})')
+        cb = lambda b: copt(None if b is None else cbool(b == 'wt'))
+        def chop(o):
+            if o[0] == 'itemcopy': return f'(HItemCopy 0%nat {cnat(o[1])} {cb(o[2])})'
+            if o[0] == 'copy': return f'(HCopy {cnat(o[1])} {cb(o[2])})'
+            if o[0] == 'setbasis': return f'(HSetBasis {cnat(o[1])} {cbool(o[2] == "wt")})'
+            if o[0] == 'itembackwards': return f'(HItemBackwards {cnat(o[1])} {copt(o[2], cnat)} {copt(o[3], q)})'
+            if o[0] == 'backwards': return f'(HBackwards {cnat(o[1])} {copt(o[2], cnat)} {copt(o[3], q)})'
+        t = (f'(dHs_hist_eqb {CHEM} {qlist(MW * P)} {cobj(case)} {clist([chop(o) for o in out["hist_ops"]])} '
+             f'{clist(out["hist_oks"], cbool)} {clist(exp)} {clist(dexp)})')
     if case.get('xhist'):
         seen = clist([qlist([F(x) for x in v]) for k, v in sorted(out.get('seen', {}).items())])
         t = f'({t} && xs_eqb {cobj(case)} {cxops(case)} {seen})'
@@ -432,10 +614,26 @@ def coq_case(case, out):
         return t
     ok = out['err'] is None
     if flip_case(case):
-        th = (f'(thermal_flip_eqb {qlist(CN)} {qlist(HF)} {qlist(MW)} {clist([PH[p] for p in case.get("solve_fail", [])], cnat)} '
-              f'{cobj_after(case)} {cbool(not case["not_stream"])} (mkP {qlist(case["flows"])} {q(case["T"])} '
-              f'{cnat(PH[case.get("sphase", "l")])}) {q(case["Q"])} {q(F(out["Hnet0"]))} {cerr(out["err"])} '
-              f'{qlist([F(x) for x in out["mol"]])} {q(F(out["T"]))} {cnat(PH[out["phase"]])} {q(F(out["Hnet"]))})')
+        def csop(o):
+            if o[0] == 'proxy': return None                      # a proxy is another name for the same state and memo
+            if o[0] == 'readH': return 'SReadH'
+            if o[0] == 'readC': return 'SReadOther'
+            if o[0] == 'setT': return f'(SSetT {q(o[1])})'
+            if o[0] == 'setflows': return f'(SSetFlows {qlist(o[1])})'
+            if o[0] == 'setphase': return f'(SSetPhase {cnat(PH[o[1]])})'
+        pre = clist([x for x in map(csop, out['pre']) if x])
+        if case.get('pkg') == 'B':
+            fwd = clist(ORDER_B, lambda x: f'(Some {cnat(x)})')
+            bwd = clist([ORDER_B.index(i) for i in range(N)], lambda x: f'(Some {cnat(x)})')
+            callf = f'(fun o => call_other {qlist(MW)} o {cnat(N)} {fwd} {bwd})'
+        else:
+            callf = f'(fun o => call_stream {qlist(MW)} o)'
+        th = (f'(thermal_cached_eqb {qlist(to_pkg(case, CN))} {qlist(to_pkg(case, HF))} '
+              f'{clist([PH[p] for p in case.get("solve_fail", [])], cnat)} {cobj_after(case)} {callf} '
+              f'{cbool(case["op"] == "adiabatic")} {cbool(not case["not_stream"])} (mkP {qlist(to_pkg(case, case["flows"]))} '
+              f'{q(case["T"])} {cnat(PH[case.get("sphase", "l")])}) {pre} {qlist([F(x) for x in out["reads"]])} {q(case["Q"])} '
+              f'{cerr(out["err"])} {qlist([F(x) for x in out["mol"]])} {q(F(out["T"]))} {cnat(PH[out["phase"]])} '
+              f'{q(F(out["Hnet0"]))} {q(F(out["Hnet"]))})')
         return f'({t} && {th})'
     th = (f'(thermal_eqb {qlist(CN * P)} {qlist(HF * P)} {qlist(MW * P)} {cobj_after(case)} {cbool(case["op"] == "adiabatic")} '
           f'{cbool(not case["not_stream"])} (mkS {qlist(case["flows"])} {q(case["T"])}) {q(case["Q"])} {q(F(out["Hnet0"]))} '
@@ -463,6 +661,9 @@ def classify(case, out):
         for t in r['terms'] + (r['plus']['terms'] if r.get('plus') else []): cnt.setdefault(t[1], set()).add(t[0])
         if any(len(v) > 1 for v in cnt.values()): ks.append('chemical-in-two-phases')
     for o in case.get('xhist', []): ks.append('xhist:' + o[0])
+    for o in case.get('pre', []): ks.append('pre:' + o[0])
+    for o, ok in zip(out.get('hist_ops', []), out.get('hist_oks', [])): ks.append('rhist:' + o[0] + (':ok' if ok else ':raise'))
+    if case.get('pkg') == 'B': ks.append('stream-on-other-package')
     if case.get('solve_fail'): ks.append('solver-raises-in:' + ''.join(case['solve_fail']) + ':stream-' + case.get('sphase', 'l') + '->' + str(out.get('phase')))
     if out.get('err'): ks.append('error:' + out.get('err_cls', '?'))
     elif case['op'] != 'dH': ks.append('returned')
@@ -492,9 +693,9 @@ def heat_per_reactant(case, spec, terms):
         tot += (HF[k] + lat) * c / -st[r]
     return tot
 
-def expected_dH(case, spec, X=None):
+def expected_dH(case, spec, X=None, as_basis=None):
     """conversion x stoichiometry-weighted heats of formation incl. latent heats (per mass on a wt basis)"""
-    basis = spec['rebase'] or spec['basis']
+    basis = as_basis or spec['rebase'] or spec['basis']
     h = heat_per_reactant(case, spec, spec['terms'])
     if h is None: return None
     tot = F(spec['X'] if X is None else X) * h
@@ -528,27 +729,64 @@ def oracle(case):
         if exp is not None and not approx(float(got), float(exp)):
             return f'dH: reported {float(got)}{via}, conversion x sum((Hf+latent)*stoichiometry) = {float(exp)} with X = {xk}'
         dhs.append(float(got))
+    if case.get('history'):
+        extra_ = {}
+        build_obj(case, extra_)
+        for d, m_ in zip(extra_.get('derived', []), extra_.get('lineage', [])):
+            if m_ is None: continue
+            exp = expected_dH(case, case['rxns'][m_], Xf[m_], as_basis=d._basis)
+            if exp is None: continue
+            try: got = float(d.dH)
+            except Exception as ex: return f'dH-copy: dH of a copy raised {type(ex).__name__}: {ex}'
+            if not approx(got, float(exp)):
+                return (f'dH-copy: a copy of member {m_} (now by {d._basis}) reports {got}, conversion x sum((Hf+latent)*stoichiometry) '
+                        f'= {float(exp)} after {[o[0] for o in extra_["hist_ops"]]}')
     if case['op'] == 'dH' or case['not_stream']: return None
-    s = make_stream(case)
-    hnet0 = s.Hnet; hf0 = s.Hf; mol0 = np.asarray(s.imol.data.to_array(), float).reshape(-1).copy()
-    scale = abs(hnet0) + abs(case['Q']) + abs(hf0)
-    if case['op'] == 'adiabatic':
-        fails = case.get('solve_fail', [])
-        try:
-            with failing_solver(s, fails):
+    T_op = case['T']
+    if flip_case(case):
+        r = run_stream(case, obj)
+        for got_, true_ in zip(r['reads'], r['true_reads']):
+            if not approx(got_, true_, abs(true_)):
+                return f'memo: Stream.H read through a handle returned {got_}, the state it was read in has H = {true_}'
+        before = r['before']; T_op = before['T']
+        mol0 = np.array(from_pkg(case, before['mol']), float)
+        hnet0 = r['Hnet0']; hf0 = float(np.dot(HF, mol0))
+        scale = abs(hnet0) + abs(case['Q']) + abs(hf0)
+        if case['op'] == 'adiabatic':
+            if r['err']:
+                fails = case.get('solve_fail', [])
+                if r['err_cls'] == 'InfeasibleRegion': return None
+                if not mol0.any() or not np.array(r['after']['mol']).any(): return None   # nothing to heat
+                if r['err_cls'] in ('UndefinedChemicalAlias',): return None
+                ph0 = before['phase']
+                other = {'g': 'l', 'l': 'g'}.get(ph0)
+                if ph0 in fails and (other is None or other in fails): return None   # no phase left in which T can be found
+                return f'adiabatic: raised {r["err_cls"]} (stream phase {ph0}, solver unavailable in {fails})'
+            if not approx(r['Hnet'], hnet0 + case['Q'], scale):
+                return (f'adiabatic: Hnet after {r["Hnet"]} != Hnet before {hnet0} + Q {case["Q"]} (both evaluated on fresh streams; '
+                        f'history before the call: {[o[0] for o in r["pre"]]}, package {case.get("pkg", "A")})')
+            return None
+        s = fresh_stream(case, before['mol'], before['T'], before['phase'])
+        shadow_flows, shadow_phase = mol0, before['phase']
+    else:
+        s = make_stream(case)
+        hnet0 = s.Hnet; hf0 = s.Hf; mol0 = np.asarray(s.imol.data.to_array(), float).reshape(-1).copy()
+        scale = abs(hnet0) + abs(case['Q']) + abs(hf0)
+        if case['op'] == 'adiabatic':
+            try:
                 obj.adiabatic_reaction(s, case['Q'])
-        except Exception as ex:
-            if type(ex).__name__ == 'InfeasibleRegion': return None
-            if not mol0.any() or not np.asarray(s.imol.data.to_array()).any(): return None   # nothing to heat
-            ph0 = case.get('sphase', 'l')
-            other = {'g': 'l', 'l': 'g'}.get(ph0)
-            if ph0 in fails and (other is None or other in fails): return None   # no phase left in which T can be found
-            return f'adiabatic: raised {type(ex).__name__}: {ex} (stream phase {ph0}, solver unavailable in {fails})'
-        if not approx(s.Hnet, hnet0 + case['Q'], scale):
-            return f'adiabatic: Hnet after {s.Hnet} != Hnet before {hnet0} + Q {case["Q"]}'
-        return None
+            except Exception as ex:
+                if type(ex).__name__ == 'InfeasibleRegion': return None
+                if not mol0.any() or not np.asarray(s.imol.data.to_array()).any(): return None   # nothing to heat
+                return f'adiabatic: raised {type(ex).__name__}: {ex}'
+            if not approx(s.Hnet, hnet0 + case['Q'], scale):
+                return f'adiabatic: Hnet after {s.Hnet} != Hnet before {hnet0} + Q {case["Q"]}'
+            return None
     # isothermal: follow the reactant fed to every member on a shadow stream
-    shadow = make_stream(case)
+    if flip_case(case):
+        shadow = tmo.Stream(None, T=T_op, phase=shadow_phase); shadow.imol.data[:] = shadow_flows   # on the reaction's package
+    else:
+        shadow = make_stream(case)
     fed = []
     try:
         def amount(st, m):
@@ -578,6 +816,7 @@ def oracle(case):
         return f'isothermal: raised {type(ex).__name__}: {ex}'
     if any(d is None for d in dhs): return None
     mol1 = np.asarray(s.imol.data.to_array(), float).reshape(-1)
+    if flip_case(case): mol1 = np.array(from_pkg(case, mol1.tolist()), float)
     ref = np.asarray(shadow.imol.data.to_array(), float).reshape(-1)
     if not np.allclose(mol1, ref, rtol=1e-9, atol=1e-9):
         if (ref < 0).any(): return None    # the clamp fired: the clause is about the unclamped extent
@@ -588,7 +827,7 @@ def oracle(case):
     h = []
     for p in range(P):
         for i in IDS:
-            one = tmo.Stream(None, T=case['T'], **{i: 1.0})
+            one = tmo.Stream(None, T=T_op, **{i: 1.0})
             h.append(one.H)
     lat = [0.0] * (P * N)
     for spec in case['rxns']:
@@ -597,7 +836,7 @@ def oracle(case):
                 lat[ph.index(p) * N + IDS.index(i)] = float(LAT[(PREF[IDS.index(i)], p)](IDS.index(i)))
     kirchhoff = float(np.dot(np.array(h) - np.array(lat), mol1 - mol0))
     d = s.Hnet - hnet0
-    if case['T'] == TREF and not ph:
+    if T_op == TREF and not ph:
         if not approx(d, heat, scale):
             return f'isothermal: at the reference state Hnet changed by {d}, heat of reaction x reactant fed = {heat}'
     if not approx(d, heat + kirchhoff, scale):
